@@ -350,6 +350,11 @@ pub fn run_case(run: &mut Run, rng: &mut Rng, cfg: &Cfg, iters: usize, fault: bo
     run_case_plan(run, rng, cfg, iters, fault, wrap_soak, VecDeque::new());
 }
 
+thread_local! {
+    /// directed scenarios: the target's distance of the next case (stable path)
+    static FORCED_PATH: std::cell::Cell<Option<u8>> = const { std::cell::Cell::new(None) };
+}
+
 /// `plan`: forced (send outcomes, wait) for the first iterations of the case (directed scenarios)
 pub fn run_case_plan(run: &mut Run, rng: &mut Rng, cfg: &Cfg, iters: usize, fault: bool, wrap_soak: bool, mut plan: VecDeque<(Vec<char>, u64)>) {
     let t0 = rng.below(1000) * 1000;
@@ -365,9 +370,11 @@ pub fn run_case_plan(run: &mut Run, rng: &mut Rng, cfg: &Cfg, iters: usize, faul
     run.op(cfg.line(t0), "ok".into());
     run.count(&format!("cfg:{}{}{}", cfg.proto, if cfg.v6 { 6 } else { 4 }, cfg.strat));
     let mut net = ScriptNet { v6: cfg.v6, sends: VecDeque::new(), dt: 0, recv: Recv::None, log: vec![] };
+    let forced_path = FORCED_PATH.with(|c| c.take());
     let mut path_len = rng.range(1, u64::from(cfg.max) + 3) as u8;
     // route changes: the path length may change between rounds (C10: growing / shrinking paths)
-    let route_changes = rng.chance(1, 3);
+    let mut route_changes = rng.chance(1, 3);
+    if let Some(d) = forced_path { path_len = d; route_changes = false; }
     let mut exact_answered_in_round = false;
     let mut route_flapped_in_round = false;
     let mut mon = Monitor { round_start: t0, last_outcome: 'o', first_iter: true, established: false, established_round: 0, ..Default::default() };
@@ -422,7 +429,7 @@ pub fn run_case_plan(run: &mut Run, rng: &mut Rng, cfg: &Cfg, iters: usize, faul
             let p = rng.pick(&aw).clone();
             // now and then a router answers at or beyond the target's distance (a route flap in mid-round,
             // ECMP): a genuine response that is not from the target
-            let flap = p.ttl.0 >= path_len && rng.chance(1, 7);
+            let flap = p.ttl.0 >= path_len && forced_path.is_none() && rng.chance(1, 7);
             let is_t = p.ttl.0 >= path_len && !flap;
             if flap { run.count("genuine:router-beyond-target"); }
             let r = genuine(cfg, &p, if is_t { cfg.target } else { 1000 + u64::from(p.ttl.0) }, is_t, now_after, rng);
@@ -491,6 +498,7 @@ pub fn run_case_plan(run: &mut Run, rng: &mut Rng, cfg: &Cfg, iters: usize, faul
         let sends_tok = if sends.is_empty() { "-".to_string() } else { sends.iter().map(char::to_string).collect::<Vec<_>>().join(",") };
         let op = format!("st it {sends_tok} {dt} {recv_tok}");
         // ---- run the three steps of the loop body on the real code
+        crate::util::inflight(&format!("{} | {op}", cfg.line(t0)));
         net.sends = sends.iter().copied().collect();
         net.dt = dt;
         net.recv = recv;
@@ -548,6 +556,10 @@ pub fn run_case_plan(run: &mut Run, rng: &mut Rng, cfg: &Cfg, iters: usize, faul
                         None => cfg.first,
                         Some(&t) => if mon.last_outcome == 'a' { t } else { t.wrapping_add(1) },
                     };
+                    // C09: an address-in-use failure re-issues the probe under the next sequence number with the same TTL
+                    if mon.last_outcome == 'a' && mon.round_ttls.last().is_some_and(|t| *t != p.ttl.0) {
+                        run.fail("c09-reissue-ttl", format!("{} (re-issued with ttl {} after ttl {})", ctx(), p.ttl.0, mon.round_ttls.last().unwrap()));
+                    }
                     mon.last_outcome = *o;
                     if p.ttl.0 != expect { run.fail("c06-ttl-order", format!("{} (ttl {} expected {expect})", ctx(), p.ttl.0)); }
                     if p.ttl.0 > cfg.max { run.fail("c06-above-max-ttl", ctx()); }
@@ -624,6 +636,18 @@ pub fn run_case_plan(run: &mut Run, rng: &mut Rng, cfg: &Cfg, iters: usize, faul
                             }
                         }
                         run.count("c01:round-checked");
+                    }
+                    // C10 (stable path, the target answered, nothing that was sent up to the target's true distance went unanswered):
+                    // the reported length is the target's true distance — in particular when the probe at that distance was
+                    // abandoned (address in use) and re-issued
+                    if mon.target_accepted_in_round && !route_flapped_in_round && cfg.first <= path_len {
+                        if let Some(l) = pr.split('/').nth(1).and_then(|x| x.parse::<u16>().ok()) {
+                            let no_loss = round_log.iter().all(|(seq, ttl, o)| *o != 'o' && *o != 'f' || *ttl > path_len || (*o == 'o' && round_answered.contains(seq)));
+                            if no_loss {
+                                if l != u16::from(path_len) { run.fail("c10-path-length-no-loss", format!("{} (true distance {path_len}, published {}, sends {:?})", ctx(), &pr[..pr.find('[').unwrap_or(6)], round_log)); }
+                                run.count("c10:path-length-no-loss-checked");
+                            }
+                        }
                     }
                     round_log.clear();
                     round_answered.clear();
@@ -735,6 +759,35 @@ pub fn run(rng: &mut Rng, thorough: bool, corpus: &[String]) -> Run {
         }
         run.count("directed:tcp-capacity");
         run_case_plan(&mut run, rng, &cfg, 200, false, false, plan);
+    }
+    // directed: TCP, stable path, nothing lost; the local port of the probe at distance k (k = the target's distance,
+    // one before, one after) is in use once or twice: the re-issued probe keeps its TTL, and the round reports the
+    // target's true distance (C09 re-issue semantics, C06 TTL order, C10 path length)
+    for d in [1u8, 3, 5] {
+        for at in [d.saturating_sub(1).max(1), d, d + 1] {
+            for n_coll in [1usize, 2] {
+                let mut cfg = gen_cfg(rng, thorough);
+                while !cfg.builder_ok() { cfg = gen_cfg(rng, thorough); }
+                cfg.proto = 't'; cfg.pd = if n_coll == 1 { Pd::Src(5000) } else { Pd::Dest(443) }; cfg.strat = 'c';
+                cfg.first = 1; cfg.max = 12; cfg.inflight = 24; cfg.max_rounds = None;
+                cfg.min_round = 1000; cfg.max_round = 1_000_000; cfg.grace = 10;
+                let mut plan = VecDeque::new();
+                for round in 0..2 {
+                    let _ = round;
+                    for ttl in 1..=d {
+                        let mut v = if ttl == at { vec!['a'; n_coll] } else { vec![] };
+                        v.push('o'); v.push('G');
+                        plan.push_back((v, 0));
+                    }
+                    // (a response answers a probe sent in an earlier iteration: one more iteration for the last one)
+                    plan.push_back((vec![if at == d + 1 { 'a' } else { 'o' }, 'o', 'G'].into_iter().skip(if at == d + 1 { 0 } else { 1 }).collect(), 0));
+                    plan.push_back((vec!['N'], 2000));
+                }
+                FORCED_PATH.with(|c| c.set(Some(d)));
+                run.count("directed:tcp-reissue-near-target");
+                run_case_plan(&mut run, rng, &cfg, plan.len(), false, false, plan);
+            }
+        }
     }
     // directed: Dublin/IPv6 soak — one probe per round for 1100 rounds: the sequence has to restart at the
     // initial sequence every 512 numbers, or the payload length derived from it outgrows the packet buffer
